@@ -246,6 +246,18 @@ Definition exec_pool (m : mem) (param : Z) (r : regs) : option mem :=
                                    (filter inb (window y xx))) in
               (y, xx, c, clampz lo hi (apply_scale (rounding_mode r) acc sc sh + zpo)))
            (positions ov)))
+  else if param =? 1 then
+    (* average pool without a global scale (padding present): modelled as the mean over the valid
+       (non-padding) elements of the window, rounded half up; the property allows one step here *)
+    let zpi := s16 (r0 r cmd0_NPU_SET_IFM_ZERO_POINT) in
+    let zpo := s16 (r0 r cmd0_NPU_SET_OFM_ZERO_POINT) in
+    Some (write_ofm m ov
+      (map (fun p => let '(y, xx, c) := p in
+              let win := filter inb (window y xx) in
+              let cnt := Z.max 1 (Z.of_nat (List.length win)) in
+              let acc := sumz (map (fun q => rd_elem b (elem_addr iv (fst q) (snd q) c) (fv_elem iv) sg - zpi) win) in
+              (y, xx, c, clampz lo hi ((2 * acc + cnt) / (2 * cnt) + zpo)))
+           (positions ov)))
   else None.
 
 Definition exec_dma (m : mem) (r : regs) : option mem :=
